@@ -1,5 +1,5 @@
 """Oracle tables for C04: answers of the standard-library / third-party functions the
-library merely calls (float, str, fromisoformat, fromtimestamp, pytimeparse.parse,
+library merely calls (str, fromisoformat, fromtimestamp, pytimeparse.parse,
 timedelta, Decimal, b64decode, json.loads), computed by the real functions in a fresh
 interpreter under the same TZ as the implementation run.  Does not import the library.
 
@@ -82,7 +82,6 @@ def handler(p):
     utc = datetime.timezone.utc
     S, N, X = p.get('strings', []), p.get('numbers', []), p.get('strables', [])
     out = {'tz': os.environ.get('TZ'), 'py': list(sys.version_info[:3])}
-    out['float'] = [call(lambda s: fl(float(s)), s) for s in S]
     out['dt_iso'] = [call(lambda s: datetime.datetime.fromisoformat(s).isoformat(), s) for s in S]
     out['date_iso'] = [call(lambda s: datetime.date.fromisoformat(s).isoformat(), s) for s in S]
     out['time_iso'] = [call(lambda s: datetime.time.fromisoformat(s).isoformat(), s) for s in S]
